@@ -52,7 +52,8 @@ def _foreign_first(r, trs, offered):
     return False
 
 
-def make(kind, seed, world, ip, tap, reach):
+def make(kind, seed, world, ip, tap, reach, opts=None):
+    opts = dict(opts or {})
     r0 = random.Random(f'byz:{seed}')
     state = {'suggested': {}, 'tampered': [], 'n': 0}
 
@@ -1125,7 +1126,7 @@ def make(kind, seed, world, ip, tap, reach):
                 h = R.dec_header(data)
             except R.DecodeError:
                 return None
-            if h['R'] or h['exch'] != R.CREATE_CHILD_SA:
+            if h['R'] or h['exch'] not in ((R.IKE_AUTH, R.CREATE_CHILD_SA) if opts.get('also_ike_auth') and kind == 'multi_proposal_request' else (R.CREATE_CHILD_SA,)):
                 return None
             opened = ip.open(data)
             if opened is None:
